@@ -207,20 +207,25 @@ Proof.
   apply cobs_eqb_eq in H2. apply N.eqb_eq in H1. apply opt_beqb_eq' in H0.
   assert (Es' : s' = fst (xstep s (s8_op st))) by (rewrite E; reflexivity).
   destruct (xstep_spec s (s8_op st) Hw) as (Hw' & Hmono); [rewrite <- Es', H1; exact Hv1|]. rewrite <- Es' in *.
-  cbn [c08_orc]. rewrite <- H1, <- H0. fold (floor s'). rewrite (IH s' Hw' Hv2 H).
-  assert (Hok : c08_step_ok (c_cur (x_c s)) (floor s) st = true); [|unfold c08_step_verdict; rewrite Hok; reflexivity].
+  assert (Hok : c08_step_ok (c_cur (x_c s)) (floor s) st = true).
+  2:{ assert (Enf : next_floor st = floor_of (s8_rec st)).
+      { unfold c08_step_ok in Hok. apply andb_true_iff in Hok as [Hok _]. apply andb_true_iff in Hok as [_ Hacc].
+        unfold next_floor. destruct (accepted st) as [h|]; [|reflexivity]. apply N.leb_le in Hacc. apply N.max_l. exact Hacc. }
+      cbn [c08_orc]. rewrite Enf, <- H1, <- H0. fold (floor s'). rewrite (N.max_r _ _ Hmono). rewrite (IH s' Hw' Hv2 H).
+      unfold c08_step_verdict; rewrite Hok; reflexivity. }
   destruct Hw as (Hwc & Hcc & Htt). destruct Hw' as (Hwc' & _).
   unfold c08_step_ok. rewrite <- H0, <- H2.
   repeat (apply andb_true_iff; split).
   - apply rec_wfb_of; exact Hwc'.
   - apply N.leb_le. exact Hmono.
-  - destruct (s8_op st) eqn:Eop; try reflexivity.
+  - unfold accepted. rewrite <- H2. destruct (s8_op st) eqn:Eop; try (destruct o as [|? [| |]|]; reflexivity).
     + cbn [xstep] in E. pose proof (backend_compact_spec (x_c s) r nranges commit_ok Hwc Hcc) as Hb.
       cbn [cstep] in E. destruct (backend_compact (x_c s) r nranges commit_ok) as [c1 [h res]] eqn:Eb. injection E as <- <-.
       destruct res; try reflexivity. cbn [x_c]. apply N.leb_le. apply Hb. reflexivity.
     + cbn [xstep cstep] in E. pose proof (backend_compact_spec (mkC (c_cur (x_c s)) 0 (c_rec (x_c s))) r nranges true Hwc Hcc) as Hb.
       destruct (backend_compact (mkC (c_cur (x_c s)) 0 (c_rec (x_c s))) r nranges true) as [c1 [h res]] eqn:Eb. injection E as <- <-.
       destruct res; try reflexivity. cbn [x_c c_rec]. apply N.leb_le. apply Hb. reflexivity.
+    + cbn [xstep] in E. injection E as <- <-. reflexivity.
     + destruct o as [|h res|]; try reflexivity. destruct res; try reflexivity.
       apply N.leb_le. apply (thread_accept s i ph s' h); [split; [exact Hwc|split; assumption]|exact E].
   - destruct (read_rev (c_cur (x_c s)) (s8_op st)) as [r|] eqn:Er; [|reflexivity].
